@@ -269,9 +269,11 @@ def case_export(ctx, rng):
         return
     A = np.array(M)
     n = max(src.vars()) + 1
-    if A.shape != (n, n):
+    # (a model whose bookkeeping is an upper bound may report a larger max_index: a larger matrix is still the same function)
+    if A.ndim != 2 or A.shape[0] != A.shape[1] or A.shape[0] < n:
         ctx.violation("qubo_to_matrix:shape", "shape %r for max index %d" % (A.shape, n - 1), w)
         return
+    n = A.shape[0]
     exp = Poly("bool")
     for i in range(n):
         for j in range(n):
